@@ -57,6 +57,21 @@ def word_of(f, op, depth=0):
     return None
 
 
+def fn_item_of(f, op, depth=0):
+    """the function item behind a fn-pointer operand (`Self::peek_is_modified_name` reified into a pointer)"""
+    fn = M.const_fn(op)
+    if fn or op[0] not in ("c", "m") or depth > 4:
+        return fn
+    d = f.defs().get(op[1][0], [])
+    if len(d) == 1 and d[0][1] != "T":
+        rv = d[0][2]
+        if rv[0] == "cast":
+            return fn_item_of(f, rv[2], depth + 1)
+        if rv[0] == "use":
+            return fn_item_of(f, rv[1], depth + 1)
+    return None
+
+
 def true_target(f, call_block):
     """block entered when the bool returned by the call in `call_block` is true (through `!` and copies)"""
     t = f.blocks[call_block]["t"]
@@ -85,13 +100,21 @@ def true_target(f, call_block):
 
 
 def peekers(fx, scope):
-    out = set()
+    """boolean look-ahead functions: they take a lexer checkpoint, read the next token and restore, without advancing - themselves, or through a
+    shared core (`peek_next_kind() -> TokenKind`) that does"""
+    cores = set()
     for p, g in fx.fns.items():
         if g.derived or g.closure or not scope(g):
             continue
         names = [(t[1].get("d") or "") for _, t in g.calls()]
-        if any(n.endswith("Lexer::<'a>::checkpoint") or n.endswith("::checkpoint") for n in names) and any(n.endswith("::restore") for n in names) \
-                and not any(n.endswith("Parser::<'a>::advance") or n.endswith("::advance") for n in names) and fx.tys(g.sig[-1]) == "bool":
+        if any(n.endswith("::checkpoint") for n in names) and any(n.endswith("::restore") for n in names) and not any(n.endswith("::advance") for n in names):
+            cores.add(p)
+    out = {p for p in cores if fx.tys(fx.fns[p].sig[-1]) == "bool"}
+    for p, g in fx.fns.items():
+        if g.derived or g.closure or not scope(g) or p in cores or fx.tys(g.sig[-1]) != "bool":
+            continue
+        names = [(t[1].get("d") or "") for _, t in g.calls()]
+        if any(n in cores for n in names) and not any(n.endswith("::advance") for n in names):
             out.add(p)
     return out
 
@@ -128,17 +151,37 @@ def sites(fx, scope, tk=TK):
     """(fn, form, word, span, ok)"""
     pk = peekers(fx, scope)
     out = []
-    # wrappers: functions taking a &TokenKind whose own advance() is dominated by a peeker call
+    # wrappers: functions taking a &TokenKind (or the word) whose own advance() cannot be reached without a look-ahead call - a peeker, or a
+    # look-ahead handed in as a function pointer (`match_accessor_word(word, names_follow: fn(&mut Self) -> bool)`), checked at the call sites.
+    # Reachability is path sensitive in boolean temporaries: `let m = self.check(k) && self.peek(); if m { self.advance() }`
     wrappers = set()
+    fnptr_wrappers = {}     # path -> index (0-based, among call arguments) of the look-ahead parameter
     for p, g in fx.fns.items():
         if g.derived or g.closure or not scope(g) or p in pk:
             continue
         adv = [bi for bi, t in g.calls() if (t[1].get("d") or "").endswith("::advance")]
-        pcs = [t[4] for bi, t in g.calls() if (t[1].get("d") or "") in pk and t[4] is not None and t[4] >= 0]
-        if adv and pcs and all(any(g.dominates(pb, a) for pb in pcs) for a in adv) and any("TokenKind" in fx.tys(t) for t in g.sig[:-1]):
-            wrappers.add(p)
+        if not adv or not any("TokenKind" in fx.tys(t) or fx.tys(t) == "&str" for t in g.sig[:-1]):
+            continue
+        peek_blocks = {bi for bi, t in g.calls() if (t[1].get("d") or "") in pk}
+        ind = {}
+        for bi, bl in enumerate(g.blocks):
+            t = bl["t"]
+            if t[0] == "call" and not t[1].get("d") and isinstance(t[1].get("op"), list) and t[1]["op"][0] in ("c", "m"):
+                import c10
+                root = c10.copy_root_local(g, t[1]["op"][1][0])
+                if 1 <= root <= g.argc:
+                    ind[bi] = root - 1
+        if peek_blocks:
+            free = M.reach_bool_sensitive(fx, g, [0], stop=peek_blocks)
+            if not any(a in free and a not in peek_blocks for a in adv):
+                wrappers.add(p)
+                continue
+        if ind:
+            free = M.reach_bool_sensitive(fx, g, [0], stop=set(ind))
+            if not any(a in free and a not in ind for a in adv) and len(set(ind.values())) == 1:
+                fnptr_wrappers[p] = next(iter(ind.values()))
     for p, f in sorted(fx.fns.items()):
-        if f.derived or f.closure or not scope(f) or p in pk or p in wrappers:
+        if f.derived or f.closure or not scope(f) or p in pk or p in wrappers or p in fnptr_wrappers:
             continue
         calls = list(f.calls())
         pcs = [t[4] for bi, t in calls if (t[1].get("d") or "") in pk and t[4] is not None and t[4] >= 0]
@@ -151,8 +194,15 @@ def sites(fx, scope, tk=TK):
                     out.append((f, "match_token", k.lower(), t[6], False))
             if d in wrappers and len(t[2]) >= 2:
                 k = kind_of(f, t[2][1])
-                if k in MODS:
-                    out.append((f, d.split("::")[-1], k.lower(), t[6], True))
+                w = k.lower() if k in MODS else (word_of(f, t[2][1]) if word_of(f, t[2][1]) in MODWORDS else None)
+                if w:
+                    out.append((f, d.split("::")[-1], w, t[6], True))
+            if d in fnptr_wrappers and len(t[2]) > fnptr_wrappers[d]:
+                k = kind_of(f, t[2][1]) if len(t[2]) > 1 else None
+                w = k.lower() if k in MODS else (word_of(f, t[2][1]) if len(t[2]) > 1 and word_of(f, t[2][1]) in MODWORDS else None)
+                if w:
+                    fn = fn_item_of(f, t[2][fnptr_wrappers[d]])
+                    out.append((f, d.split("::")[-1], w, t[6], fn in pk))
         # F2
         gates = []          # (word, block from which the word is known to be the current token)
         switch_gates = []   # (words, switch block, blocks also reachable when the current token is something else)
@@ -207,4 +257,4 @@ def sites(fx, scope, tk=TK):
             if hit is not None and t[4] is not None and t[4] >= 0 and name_follows(fx, f, t[4], wrappers):
                 ok = any(f.dominates(pb, bi) for pb in pcs)
                 out.append((f, "advance", hit, t[6], ok))
-    return out, pk, wrappers
+    return out, pk, wrappers | set(fnptr_wrappers)
